@@ -508,11 +508,14 @@ def p1(h, st):
     h.done()
 
 
+from tverif.engine import repeatable
+repeatable((AU, "exp_pauliword_to_gates"), (AU, "get_exponentiated_qubit_operator_circuit"), (AU, "trotterize"), (AU, "recursive_trotter_suzuki_decomposition"))
+
 PROPERTY = {
     "level": "proof",
     "explanation": "S-level: for each enumerated structure (Pauli word, control placement, sign case) the real function's AST is executed "
                    "symbolically with the coefficient as a symbol; the resulting operator is compared with the specification in the exact "
-                   "ring Q(zeta_32)[cos,sin]/(c^2+s^2-1), whose normal form is canonical: a zero difference is a proof for every real coefficient.",
+                   "ring Q(zeta_32)[cos,sin]/(c^2+s^2-1), whose normal form is canonical: a zero difference is a proof for every real coefficient. Unbounded: the term loop of get_exponentiated_qubit_operator_circuit for operators with ANY number of terms (P1: loop cut; exp_pauliword_to_gates and the Trotter-Suzuki decomposition as callee contracts; phase bookkeeping, skip threshold and controlled identity terms for every real coefficient).",
     "bounds": {"quick": "words on <= 3 qubits in a 4-qubit register, controls: none / 1 / 2 qubits", "thorough": "words on <= 4 qubits in a 5-qubit register"},
     "assumptions": ["floating-point arithmetic treated as real arithmetic", "structure (word length, register size) bounded as stated"],
     "trusted_base": ["tverif AST interpreter (Python semantics as implemented in tverif/interp.py, validated differentially)",
